@@ -335,4 +335,98 @@ theorem RunInv.watermark :
 
 end
 
+
+/-! ### the retained answers are a function of the delivered set -/
+
+/-- the answer of a slot, forgetting whether a block was finalized directly or through a descendant -/
+def view : Option Status → Option Status
+  | some (.implFinalized h) => some (.finalized h)
+  | o => o
+
+theorem view_of_finalHash {o : Option Status} {h : Nat} (e : finalHash o = some h) :
+    view o = some (.finalized h) := by
+  cases o with
+  | none => cases e
+  | some x =>
+    cases x with
+    | notarized _ => cases e
+    | finalPending => cases e
+    | finalized _ => cases e; rfl
+    | implFinalized _ => cases e; rfl
+    | implSkipped => cases e
+
+theorem undec_cases {o : Option Status} (n : ¬ Dec o) :
+    o = none ∨ (∃ h, o = some (.notarized h)) ∨ o = some .finalPending := by
+  cases o with
+  | none => exact Or.inl rfl
+  | some x =>
+    cases x with
+    | notarized h => exact Or.inr (Or.inl ⟨h, rfl⟩)
+    | finalPending => exact Or.inr (Or.inr rfl)
+    | finalized _ => exact absurd (dec_some.mpr rfl) n
+    | implFinalized _ => exact absurd (dec_some.mpr rfl) n
+    | implSkipped => exact absurd (dec_some.mpr rfl) n
+
+theorem slotOK_congr {H H' : List Op} (hs : Sub H H') (hs' : Sub H' H) {s : Nat} {o : Option Status}
+    (ok : SlotOK H' s o) : SlotOK H s o := by
+  cases o with
+  | none => exact ⟨fun a => ok.1 (a.mono hs), fun h a => ok.2.1 h (a.mono hs), fun h a => ok.2.2 h (a.mono hs)⟩
+  | some x =>
+    cases x with
+    | notarized h => exact ⟨ok.1.mono hs', fun a => ok.2.1 (a.mono hs), fun h a => ok.2.2 h (a.mono hs)⟩
+    | finalPending => exact ⟨ok.1.mono hs', fun h a => ok.2.1 h (a.mono hs), fun h a => ok.2.2 h (a.mono hs)⟩
+    | finalized h => exact Final.mono hs' ok
+    | implFinalized h => exact Final.mono hs' ok
+    | implSkipped => exact Skip.mono hs' ok
+
+theorem view_eq {H H' : List Op} (sf : Safe H) (hs : Sub H H') (hs' : Sub H' H) {t1 t2 : Tracker}
+    (r1 : Rel H t1) (r2 : Rel H' t2) (s : Nat) (h1 : t1.first ≤ s) (h2 : t2.first ≤ s) :
+    view (t1.status s) = view (t2.status s) := by
+  have ok1 := r1.slot s h1
+  have ok2 : SlotOK H s (t2.status s) := slotOK_congr hs hs' (r2.slot s h2)
+  have cF1 : ∀ h, Final H (s, h) → finalHash (t1.status s) = some h :=
+    fun h a => r1.final_complete sf (Sub.refl H) a h1
+  have cF2 : ∀ h, Final H (s, h) → finalHash (t2.status s) = some h :=
+    fun h a => r2.final_complete sf hs' (a.mono hs) h2
+  have cS1 : Skip H s → t1.status s = some .implSkipped := fun a => r1.skip_complete sf (Sub.refl H) a h1
+  have cS2 : Skip H s → t2.status s = some .implSkipped := fun a => r2.skip_complete sf hs' (a.mono hs) h2
+  by_cases d1 : Dec (t1.status s)
+  · rcases dec_cases d1 with ⟨h, e⟩ | e
+    · rw [view_of_finalHash e, view_of_finalHash (cF2 h (slotOK_final ok1 e))]
+    · rw [e, cS2 (slotOK_skip ok1 e)]
+  by_cases d2 : Dec (t2.status s)
+  · rcases dec_cases d2 with ⟨h, e⟩ | e
+    · rw [view_of_finalHash e, view_of_finalHash (cF1 h (slotOK_final ok2 e))]
+    · rw [e, cS1 (slotOK_skip ok2 e)]
+  rcases undec_cases d1 with e1 | ⟨x1, e1⟩ | e1 <;> rcases undec_cases d2 with e2 | ⟨x2, e2⟩ | e2 <;>
+    rw [e1] at ok1 <;> rw [e2] at ok2 <;> rw [e1, e2]
+  · exact absurd ok2.1 (ok1.2.1 x2)
+  · exact absurd ok2.1 ok1.1
+  · exact absurd ok1.1 (ok2.2.1 x1)
+  · have := sf.notar_fun (s, x1) (s, x2) ok1.1 ok2.1 rfl
+    cases this; rfl
+  · exact absurd ok1.1 (ok2.2.1 x1)
+  · exact absurd ok1.1 ok2.1
+  · exact absurd ok2.1 (ok1.2.1 x2)
+
+/-- two runs over the same delivered set end with the same watermark -/
+theorem first_eq {H H' : List Op} (sf : Safe H) (hs : Sub H H') (hs' : Sub H' H) {t1 t2 : Tracker}
+    {evs1 evs2 : List Event} (r1 : RunInv H t1 evs1) (r2 : RunInv H' t2 evs2) : t1.first = t2.first := by
+  have sf' : Safe H' := sf.sub hs'
+  have w1 := r1.watermark sf
+  have w2 := r2.watermark sf'
+  have tr : ∀ s, (Skip H s ∨ ∃ h, Final H (s, h)) ↔ (Skip H' s ∨ ∃ h, Final H' (s, h)) := by
+    intro s
+    constructor
+    · rintro (a | ⟨h, a⟩)
+      · exact Or.inl (a.mono hs)
+      · exact Or.inr ⟨h, a.mono hs⟩
+    · rintro (a | ⟨h, a⟩)
+      · exact Or.inl (a.mono hs')
+      · exact Or.inr ⟨h, a.mono hs'⟩
+  rcases Nat.lt_trichotomy t1.first t2.first with h | h | h
+  · exact absurd ((tr _).mpr (w2.1 (t1.first + 1) (by omega) (by omega))) w1.2
+  · exact h
+  · exact absurd ((tr _).mp (w1.1 (t2.first + 1) (by omega) (by omega))) w2.2
+
 end AgModel.Finality
